@@ -291,7 +291,7 @@ func runHistory(k *vf.Case) {
 	}
 
 	nSets := 2 + r.Intn(8)
-	valueProfile := r.Intn(3)
+	valueProfile := r.Intn(4)
 	cycles := 5 + r.Intn(56)
 	if k.C.Tier == "quick" && cycles > 30 {
 		cycles = 5 + r.Intn(26)
@@ -353,6 +353,18 @@ func runHistory(k *vf.Case) {
 						}
 					case 2:
 						v = vf.Pick(r, []int64{1, 1, 2, 3, 5, 1000, 65536, 2000, 1 << 40})
+					}
+					if valueProfile == 3 && (si.kind == "hist" || si.kind == "expo") {
+						// the sign of what a set receives changes from cycle to cycle (and zeros come up): one
+						// side of an exponential histogram is empty in some collections and not in others
+						switch (cyc + s) % 3 {
+						case 0:
+							v = -v
+						case 1:
+							if r.Chance(1, 4) {
+								v = 0
+							}
+						}
 					}
 					if si.kind == "updown" && r.Bool() {
 						v = -v
@@ -835,6 +847,11 @@ func runConcurrent(k *vf.Case) {
 	h, _ := m.Float64Histogram("h")
 	e, _ := m.Int64Histogram("e")
 	c, _ := m.Int64Counter("c")
+	m.Int64ObservableCounter("oc", metric.WithInt64Callback(func(_ context.Context, o metric.Int64Observer) error {
+		runtime.Gosched() // a callback that is not instantaneous
+		o.Observe(7)
+		return nil
+	}))
 	G := vf.Pick(r, []int{2, 4, 8})
 	nSets := 1 + r.Intn(3)
 	per := 300 + r.Intn(1500)
@@ -845,6 +862,11 @@ func runConcurrent(k *vf.Case) {
 		wg.Add(1)
 		go func() {
 			defer wg.Done()
+			defer func() {
+				if rec := recover(); rec != nil {
+					k.Violate("panic", "concurrent recording", fmt.Sprint(rec), nil)
+				}
+			}()
 			gr := vf.NewRNG(seed)
 			<-release
 			for i := 0; i < per; i++ {
@@ -946,6 +968,49 @@ func runConcurrent(k *vf.Case) {
 		}
 		k.C.Count("concurrent_points_compared", 1)
 	}
+	// two collections of ONE reader overlapping in time: each runs the callbacks and aggregates as a unit, so
+	// the observable counter (whose callback always observes 7) reads 7 in every cumulative collection
+	{
+		var owg sync.WaitGroup
+		var omu sync.Mutex
+		wrong := ""
+		for g := 0; g < 2; g++ {
+			owg.Add(1)
+			go func() {
+				defer owg.Done()
+				for i := 0; i < 15; i++ {
+					var rm metricdata.ResourceMetrics
+					if err := cum.Collect(ctx, &rm); err != nil {
+						continue
+					}
+					found := false
+					for _, sm := range rm.ScopeMetrics {
+						for _, mt := range sm.Metrics {
+							if d, ok := mt.Data.(metricdata.Sum[int64]); ok && mt.Name == "oc" {
+								for _, p := range d.DataPoints {
+									found = true
+									if p.Value != 7 {
+										omu.Lock()
+										wrong = fmt.Sprintf("observable counter reads %d, its callback observes 7", p.Value)
+										omu.Unlock()
+									}
+								}
+							}
+						}
+					}
+					if !found {
+						omu.Lock()
+						wrong = "observable counter missing from a collection although its callback observed it"
+						omu.Unlock()
+					}
+				}
+			}()
+		}
+		owg.Wait()
+		if wrong != "" {
+			k.Violate("async-cumulative-value", "overlapping collections of one reader", wrong, nil)
+		}
+	}
 	// and nothing was lost altogether
 	for _, name := range []string{"h", "e"} {
 		var n uint64
@@ -971,6 +1036,92 @@ func setString(s attribute.Set) string {
 	return strings.Join(parts, ",")
 }
 
+// runInterrupted: collections that are attempted on a context that is already done. With a callback in the
+// pipeline such an attempt fails; it must not consume anything the synchronous instruments have recorded:
+// the collections that follow still add up, set by set, to what the cumulative reader holds.
+func runInterrupted(k *vf.Case) {
+	r := k.R
+	ctx := context.Background()
+	del := sdkmetric.NewManualReader(sdkmetric.WithTemporalitySelector(func(sdkmetric.InstrumentKind) metricdata.Temporality { return metricdata.DeltaTemporality }))
+	cum := sdkmetric.NewManualReader()
+	mp := sdkmetric.NewMeterProvider(sdkmetric.WithReader(del), sdkmetric.WithReader(cum))
+	m := mp.Meter("interrupted")
+	ctr, _ := m.Int64Counter("c")
+	hist, _ := m.Float64Histogram("h")
+	m.Int64ObservableGauge("g", metric.WithInt64Callback(func(_ context.Context, o metric.Int64Observer) error { o.Observe(1); return nil }))
+	dead, cancel := context.WithCancel(ctx)
+	cancel()
+	nSets := 1 + r.Intn(4)
+	running := map[string]float64{} // instrument|set|what -> running delta total
+	failed := 0
+	for cyc := 0; cyc < 3+r.Intn(10); cyc++ {
+		for i := r.Intn(12); i > 0; i-- {
+			o := metric.WithAttributeSet(attribute.NewSet(attribute.Int("sid", r.Intn(nSets))))
+			v := int64(1 + r.Intn(100))
+			ctr.Add(ctx, v, o)
+			hist.Record(ctx, float64(v), o)
+		}
+		var rd, rc metricdata.ResourceMetrics
+		if r.Chance(1, 2) {
+			var scratch metricdata.ResourceMetrics
+			if err := vf.Pick(r, []*sdkmetric.ManualReader{del, cum}).Collect(dead, &scratch); err != nil {
+				failed++
+			} else {
+				k.Violate("collect-on-done-context-succeeded", "", "a pipeline with a callback reported success for a collection on a cancelled context", nil)
+				return
+			}
+		}
+		if err := del.Collect(ctx, &rd); err != nil {
+			k.Violate("collect-error", "interrupted delta", err.Error(), nil)
+			return
+		}
+		if err := cum.Collect(ctx, &rc); err != nil {
+			k.Violate("collect-error", "interrupted cumulative", err.Error(), nil)
+			return
+		}
+		latest := map[string]float64{}
+		walk := func(rm *metricdata.ResourceMetrics, into map[string]float64, add bool) {
+			for _, sm := range rm.ScopeMetrics {
+				for _, mt := range sm.Metrics {
+					put := func(set attribute.Set, what string, v float64) {
+						key := mt.Name + "|" + setString(set) + "|" + what
+						if add {
+							into[key] += v
+						} else {
+							into[key] = v
+						}
+					}
+					switch d := mt.Data.(type) {
+					case metricdata.Sum[int64]:
+						for _, p := range d.DataPoints {
+							put(p.Attributes, "sum", float64(p.Value))
+						}
+					case metricdata.Histogram[float64]:
+						for _, p := range d.DataPoints {
+							put(p.Attributes, "count", float64(p.Count))
+							put(p.Attributes, "sum", p.Sum)
+						}
+					}
+				}
+			}
+		}
+		walk(&rd, running, true)
+		walk(&rc, latest, false)
+		for key, want := range latest {
+			if running[key] != want {
+				k.Violate("cumulative-vs-delta-total", "after a collection attempt on a done context", fmt.Sprintf("cycle %d, %d failed attempts so far: %s cumulative %v, running delta total %v", cyc, failed, key, want, running[key]), nil)
+				return
+			}
+		}
+	}
+	if failed > 0 {
+		k.C.Count("interrupted_histories_with_failed_attempts", 1)
+	}
+	k.C.Count("interrupted_histories", 1)
+	k.C.Sig(fmt.Sprintf("interrupted|%d|%d", nSets, min(failed, 3)))
+	mp.Shutdown(ctx)
+}
+
 func main() {
 	vf.Main("C08", "exploration", func(c *vf.Ctx) {
 		c.Rule = "seeded single-threaded histories of 5-60 cycles on one MeterProvider with a delta-for-everything and a cumulative ManualReader collecting at the same points: all seven instrument kinds x int64/float64 with default aggregations, histograms under a base-2 exponential view and a counter re-aggregated to an explicit histogram; in each cycle a random subset of 2-9 attribute sets is measured (sets appear, disappear, reappear); asynchronous observations are scripted per cycle and replayed by every callback invocation; instrument-level callbacks plus multi-instrument callbacks registered/unregistered between cycles, duplicate observations, observations of instruments not registered with the callback; plus wide histories: 1 600-7 000 distinct attribute sets on a counter and a histogram over 4-7 cycles, 400-900 per cycle, compared set by set. distinct = distinct (cycles class, sets, live callbacks, churn seen) signatures"
@@ -980,6 +1131,8 @@ func main() {
 		c.Cases("histories", c.N(2500, 40_000), 0, runHistory)
 		c.Cases("wide", c.N(48, 600), 0, runWide)
 		c.Cases("concurrent", c.N(200, 3000), 4, runConcurrent)
+		c.Cases("interrupted", c.N(600, 8000), 0, runInterrupted)
+		c.Floor("interrupted_histories_with_failed_attempts", 200)
 		c.Floor("concurrent_histories", 100)
 		c.Floor("wide_histories", 20)
 		c.Floor("points_compared", 100_000)
